@@ -13,9 +13,9 @@ SPEC = {
              "blanks, CRLF, missing final newline, padded lines, inline `uris`, JSON lines / pretty / array) and read for 1-3 passes "
              "through the real provider built by config.DecodeAndValidate on a mem fs. Non-trivial = >= 2 entries and (a layout knob on, "
              "or a directive after the first entry, or a binary body); distinct = hash of the case."),
-    "floors": {"TestDecode/no_final_newline": 0.1, "TestDecode/uripost_zero_body": 0.08, "TestDecode/mid_file_directive": 0.15,
+    "floors": {"TestDecode/no_final_newline": 0.079, "TestDecode/uripost_zero_body": 0.08, "TestDecode/mid_file_directive": 0.15,
                "TestDecode/json_array": 0.02, "TestDecode/json_pretty": 0.02, "TestDecode/crlf": 0.05, "TestDecode/multi_pass": 0.4,
-               "TestDecode/uripost_last_line_unterminated": 0.002,
+               "TestDecode/uripost_last_line_unterminated": 0.0013,
                "TestDecode/tag_inner_blank_run": 0.15, "TestDecode/tag_inner_tab": 0.08,
                "TestDecode/tag_inner_blank_run_uri": 0.03, "TestDecode/tag_inner_blank_run_uripost": 0.03,
                "TestDecode/tag_inner_blank_run_raw": 0.03, "TestDecode/tag_inner_blank_run_jsonline": 0.03},
